@@ -76,10 +76,37 @@ def register(it, data: VBytes, value: V):
         it.enc_origin_terms[k] = (data.e, value)
 
 
-def enc(it, v: V) -> VBytes:
+def enc(it, v: V, canonical=False) -> VBytes:
+    if canonical:
+        # canonical=True: the same encoding of the value with every map's keys put in canonical order (shortest encoded key first, then bytewise)
+        return enc(it, _canonical_order(it, v))
     r = _enc(it, v)
-    register(it, r, v)
+    from . import relmap
+    register(it, r, relmap.snapshot(it, v) if relmap.contains_rel(v) else v)
     return r
+
+
+def _canonical_order(it, v):
+    if isinstance(v, VTag):
+        return VTag(v.tag, _canonical_order(it, v.value))
+    if isinstance(v, (VList, VTuple)):
+        return type(v)([_canonical_order(it, x) for x in v.items])
+    if isinstance(v, VDict):
+        from .interp import mk_key
+        keys = it.dict_keys(v)
+        encs = {}
+        for k in keys:
+            e = _enc(it, mk_key(k))
+            if e.conc is None:
+                raise OutOfSubset("canonical encoding of a map with a symbolic key")
+            encs[k] = e.conc
+        d = VDict(frozen=v.frozen)
+        for k in sorted(keys, key=lambda k: (len(encs[k]), encs[k])):
+            d.entries[k] = DEntry(k, _canonical_order(it, v.entries[k].value))
+        return d
+    if isinstance(v, (VInt, VBool, VBytes, VStr, VNone)):
+        return v
+    raise OutOfSubset(f"canonical encoding of {type(v).__name__}")
 
 
 def _enc(it, v: V) -> VBytes:
@@ -129,6 +156,9 @@ def _enc(it, v: V) -> VBytes:
     if isinstance(v, VOpaque):
         from . import plain
         return plain.enc(it, v)
+    if isinstance(v, VLib) and v.kind == "RelMap":
+        from . import relmap
+        return relmap.enc(it, v)
     if isinstance(v, VObj) and "__dict_base__" in v.attrs:
         return enc(it, v.attrs["__dict_base__"])
     if isinstance(v, VFloat):
@@ -138,8 +168,13 @@ def _enc(it, v: V) -> VBytes:
     it.raise_(cbor2.CBOREncodeError, f"cannot serialize type {type(v).__name__}")
 
 
-def decoded_copy(v: V, under_tag=False) -> V:
+def decoded_copy(v: V, under_tag=False, it=None) -> V:
     """What cbor2.loads returns for the encoding of v (cbor2 6: containers under a tag are immutable)."""
+    if isinstance(v, VLib) and v.kind == "RelMap":
+        if it is None:
+            raise OutOfSubset("decode of a mapping of unbounded size outside cbor2.loads")
+        from . import relmap
+        return relmap.copy_map(it, v, frozen=under_tag)
     if isinstance(v, (VList, VTuple)):
         items = [decoded_copy(x, under_tag) for x in v.items]
         return VTuple(items) if under_tag else VList(items)
@@ -152,7 +187,7 @@ def decoded_copy(v: V, under_tag=False) -> V:
             d.entries[kk] = DEntry(kk, decoded_copy(e.value, under_tag))
         return d
     if isinstance(v, VTag):
-        return VTag(v.tag, decoded_copy(v.value, True))
+        return VTag(v.tag, decoded_copy(v.value, True, it))
     if isinstance(v, VObj) and "__dict_base__" in v.attrs:
         return decoded_copy(v.attrs["__dict_base__"], under_tag)
     return v
@@ -188,11 +223,11 @@ def loads(it, data: V) -> V:
     origins = getattr(it, "enc_origins", {})
     o = origins.get(okey(data.e))
     if o is not None:
-        return decoded_copy(o)
+        return decoded_copy(o, it=it)
     # semantic lookup: the bytes are provably equal to a known encoding (e.g. stated by a precondition)
     if len(origins) <= 12:
         for key, (term, val) in getattr(it, "enc_origin_terms", {}).items():
             if it.must(data.e == term):
-                return decoded_copy(val)
+                return decoded_copy(val, it=it)
     from . import plain
     return plain.loads(it, data)
